@@ -93,6 +93,10 @@ fn main() {
                 // a panic of the harness itself (outside the guarded calls into the code under test) must not end
                 // the process silently with status 101: say where it happened; it is inconclusive, not a verdict
                 if let Err(_) = std::panic::catch_unwind(std::panic::AssertUnwindSafe(|| run(&ctx))) {
+                    // violations recorded before the harness fell over are still reported
+                    if ctx.has_violations() {
+                        std::process::exit(ctx.finish());
+                    }
                     println!("INCONCLUSIVE property={} the harness panicked outside a guarded call: {}", prop, verif_harness::runner::last_panic().unwrap_or_default());
                     std::process::exit(2);
                 }
